@@ -111,6 +111,25 @@ class NPProxy:
             obj = [int(i) for i in obj] if isinstance(obj, (list, tuple, real_np.ndarray)) else int(obj)
         return real_np.delete(arr, obj, axis=axis)
 
+    def _int_concrete(self, a, what):
+        # numpy picks a different algorithm for integer arrays than for object arrays (lookup table / sort-based / loop), so
+        # set-membership routines are run on real integer arrays: symbolic integers are concretised (solver-enumerated paths)
+        if not has_sym(a):
+            return a
+        o = real_np.asarray(a, dtype=object)
+        flat = []
+        for x in o.flat:
+            if isinstance(x, Sym) and not x.isint:
+                raise Unsupported(f"{what} on symbolic reals")
+            flat.append(int(x))
+        return real_np.array(flat, dtype=int).reshape(o.shape)
+
+    def isin(self, element, test_elements, **kw):
+        return real_np.isin(self._int_concrete(element, 'isin'), self._int_concrete(test_elements, 'isin'), **kw)
+
+    def in1d(self, ar1, ar2, **kw):
+        return real_np.in1d(self._int_concrete(ar1, 'in1d'), self._int_concrete(ar2, 'in1d'), **kw)
+
     def take(self, a, indices, axis=None, **kw):
         if has_sym(indices):
             indices = [int(i) for i in real_np.asarray(indices, dtype=object).flat]
